@@ -760,11 +760,14 @@ def expression_literals_and_embeddings(tier, seed):
     out = SimpleNamespace(case=SimpleNamespace(operation=SimpleNamespace(method="get"), path_parameters={"id": "p1"}, query={"id": "q7"}, headers={}, body={"a": 1}),
                           response=SimpleNamespace(status_code=201, headers={"location": ["/items/9"]}, json=lambda: {"a": 1}))
     literals = ["a", "#", "#tag", ".", "/", ":", "%", "7", "x#1", "-", " "]
-    refs = [("{$request.query.id}", "q7"), ("{$request.path.id}", "p1"), ("{$statusCode}", "201"), ("{$method}", "GET")]
+    refs = [("{$request.query.id}", "q7"), ("{$request.path.id}", "p1"), ("{$statusCode}", "201"), ("{$method}", "GET"), ("{$response.header.location}", "/items/9"),
+            ("{$response.header.Location#regex:/items/(\\d+)}", "9"), ("{$response.body#/a}", "1"), ("{$request.body#/a}", "1")]
     L = 3 if tier == "quick" else 4
     n = 0
     viol = []
     pieces = [(t, t) for t in literals] + refs
+    if tier == "quick":
+        pieces = pieces[:11] + refs[:2] + refs[4:]  # (quick: 17 pieces, all reference kinds)
     for k in range(1, L + 1):
         for combo in itertools.product(pieces, repeat=k):
             expr = "".join(t for t, _ in combo)
@@ -778,6 +781,8 @@ def expression_literals_and_embeddings(tier, seed):
                 if len(viol) < 3:
                     viol.append({"expression": expr, "problem": f"raised {type(exc).__name__}: {exc}"[:160]})
                 continue
+            if k == 1 and not isinstance(got, str):
+                got = str(got)  # (a single expression keeps the type of its value: compared by its text here)
             if got != want and len(viol) < 3:
                 viol.append({"expression": expr, "got": repr(got), "want": repr(want)})
     return {"name": "expression_literals_and_embeddings", "bound": f"concatenations of up to {L} pieces out of {len(literals)} literals and {len(refs)} embedded references", "evaluations": n,
